@@ -29,6 +29,10 @@ var futBodies = []struct{ tag, src string }{
 	{"body:long-sleep", "(do (sleep 60) :slept)"},
 	{"body:catches-its-cancellation", "(try (do (sleep 60) :slept) (catch e :swallowed))"},
 	{"body:ignores-cancellation", "(do (hard-sleep! 400) :late)"},
+	{"body:nil-value", "nil"},
+	{"body:nil-value-after-sleep", "(do (sleep 3) nil)"},
+	// the body's value IS the result of a builtin that ignores its context: it completes normally although cancelled meanwhile
+	{"body:ignores-cancellation-and-completes", "(hard-sleep! 120)"},
 	{"body:loops-until-cancelled", "(do (def spin (fn [n] (if (< n 0) n (spin (+ n 1))))) (spin 0))"},
 }
 
@@ -127,6 +131,12 @@ func runC10(tier string, seed uint64, rep *Report) {
 			hasCancel = true
 		}
 		// a body that ignores cancellation: cancel it, then a reader with a short deadline must still get its timeout on time
+		if body.tag == "body:ignores-cancellation-and-completes" {
+			// cancel while it runs; after it has completed the flags must still say cancelled
+			ops[0][0] = futOp{opc: 2, src: "(future-cancel f)"}
+			progs[0][0] = ThreadOp{Src: "(future-cancel f)"}
+			hasCancel = true
+		}
 		if body.tag == "body:ignores-cancellation" && len(ops[0]) >= 2 {
 			ops[0][0] = futOp{opc: 2, src: "(future-cancel f)"}
 			progs[0][0] = ThreadOp{Src: "(future-cancel f)"}
